@@ -669,6 +669,7 @@ package apd
 //@   requires nd == -1 || nd == nd10(val(d.Coeff))
 //@   assigns d.Coeff, d.Exponent, d.Form
 //@   reads d.Coeff, d.Negative, d.Form
+//@   outs d.Exponent when !hassys(ret)
 //@   loop 1 invariant #i >= -1 && (#i < len(xs) || #i == -1) && sum == sumupto(xs, #i + 1) && nobadupto(xs, #i + 1)
 //@   loop 1 decreases len(xs) - #i
 //@   ensures [inv] (d.Form == old(d.Form) || d.Form == Infinite) && val(d.Coeff) >= 0 && (closed(res) ==> closed(ret))
@@ -905,7 +906,7 @@ package apd
 //@   exported
 //@   requires writable(d) && inv(x) && inv(y)
 //@   assigns d
-//@   outs d
+//@   outs d when ret1 == nil
 //@   ensures [invkeep] old(inv(d)) ==> inv(d)
 //@   ensures [inv] inv(d)
 //@   ensures [closed] closed(ret0)
@@ -1015,6 +1016,7 @@ package apd
 //@   requires writable(d)
 //@   assigns d.Negative, d.Coeff, d.Form
 //@   reads d
+//@   outs d.Negative, d.Coeff, d.Form
 //@   ensures d.Form == Finite && d.Negative == (x < 0) && val(d.Coeff) == abs(x)
 
 //@ func (*Decimal).SetFinite
